@@ -187,9 +187,11 @@ impl<'a> MediaPlaylistBuilder<'a> {
                 // CHECK: `#EXT-X-TARGETDURATION`
                 let segment_duration = segment.duration.duration();
 
-                // round the duration if it is .5s
-                let rounded_segment_duration =
-                    Duration::from_secs(segment_duration.as_secs_f64().round() as u64);
+                // round the duration to the nearest second (.5s is rounded up);
+                // this is done in nanoseconds, because an `f64` can not represent
+                // every duration exactly
+                let rounded_segment_duration_secs =
+                    (segment_duration.as_nanos() + 500_000_000) / 1_000_000_000;
 
                 let max_segment_duration = self
                     .allowable_excess_duration
@@ -198,7 +200,7 @@ impl<'a> MediaPlaylistBuilder<'a> {
                         target_duration.saturating_add(*value)
                     });
 
-                if rounded_segment_duration > max_segment_duration {
+                if rounded_segment_duration_secs * 1_000_000_000 > max_segment_duration.as_nanos() {
                     return Err(Error::custom(format!(
                         "Too large segment duration: actual={:?}, max={:?}, target_duration={:?}, uri={:?}",
                         segment_duration,
